@@ -165,7 +165,7 @@ def sg():
             return types_[c]
         def rec(r):
             s = tree.objs[r['idx']]
-            tab = []
+            tab, ttypes = [], []
             for k, v in sorted(dict.items(s.symbol_attrs)):
                 trefs = []
                 if isinstance(v, SymbolAttributes):
@@ -176,12 +176,20 @@ def sg():
                 if isinstance(dt, ProcedureType) and isinstance(dt.procedure, Scope): link = ['proc', lab.ref(dt.procedure)]
                 elif isinstance(dt, DerivedType) and isinstance(dt.typedef, Scope): link = ['typedef', lab.ref(dt.typedef)]
                 tab.append([k, tag(v), link, trefs])
+                if isinstance(v, SymbolAttributes):
+                    for attr, y in type_syms(v):
+                        rf = lab.ref(y.scope)
+                        if rf is not None and not (CTX0 <= rf < FOREIGN0):
+                            ttypes.append([k, attr, str(y.name).lower(), tag(y.type) if y.type is not None else None])
             par = s.parent
             return {'id': lab.ref(s), 'kind': r['kind'], 'name': r['name'], 'parent': lab.ref(par),
                     'tpar_ok': s.symbol_attrs.parent is (par.symbol_attrs if par is not None else None),
                     'tab': tab, 'occ': [[str(y.name).lower(), lab.ref(y.scope)] for y in r['occ']],
                     # the type a symbol reads THROUGH ITS SCOPE (unattached symbols carry a private type: None here)
                     'types': [tag(y.type) if (y.scope is not None and y.type is not None) else None for y in r['occ']],
+                    # types read by the symbols INSIDE the table entries (kind / initial / shape / length ...) that are attached
+                    # to a scope of one of the copies: the re-type-leak observer (not part of the model literal)
+                    'ttypes': ttypes,
                     'nodes': [rec(c) for c in r['nodes']], 'members': [rec(c) for c in r['members']]}
         return rec(tree.root)
 
@@ -222,8 +230,13 @@ def graph_refs(t):
     return out
 
 def strip_types(t):
-    """graph without the per-occurrence type tags (used for == comparisons of graphs)"""
-    return {k: ([strip_types(c) for c in v] if k in ('nodes', 'members') else v) for k, v in t.items() if k != 'types'}
+    """graph without the type tags read by the symbols (used for == comparisons of graphs)"""
+    return {k: ([strip_types(c) for c in v] if k in ('nodes', 'members') else v) for k, v in t.items() if k not in ('types', 'ttypes')}
+
+def inner_types(t):
+    """types read by the IR symbols and by the symbols inside the table entries, per scope; symbols attached to the enclosing
+    context (shared by both copies on purpose) are left out"""
+    return [[x['id'], [ty for (n, r), ty in zip(x['occ'], x['types']) if not (r is not None and CTX0 <= r < FOREIGN0)], x['ttypes']] for x in flat(t)]
 
 def all_types(t):
     return [ty for x in flat(t) for ty in x['types']]
@@ -369,6 +382,8 @@ class SrcGen:
         for _ in range(r.randint(1, 2)):
             cands = [(n, v) for n, v in env.items()]
             n, v = r.choice(cands)
+            if v.get('noassoc') and not self.leaky:
+                continue     # the type of the associate name copies the initialiser, whose symbols stay attached to the original (F-C17-1 family)
             # the associate name: new, or (sometimes) shadowing a visible name
             an = self.fresh('q') if r.random() < 0.85 else r.choice([m for m in env if env[m]['cat'] != 'proc'] or [self.fresh('q')])
             if an in [p[0] for p in pairs]: continue
@@ -445,14 +460,32 @@ class SrcGen:
             else:
                 decl.append('%s%s, intent(inout) :: %s' % (ty, '(kind=%s)' % jp if use_kind else '', a))
                 env[a] = {'cat': 'scalar', 'ty': ty, 'local': True}
+        # named constants of the routine and constants derived from them (initialisers referencing symbols of the unit itself)
+        consts = [m for m, v in outer.items() if v.get('const')]
+        if r.random() < 0.55:
+            for _ in range(r.randint(1, 2)):
+                c_ = self.fresh('np')
+                ini = str(r.randint(2, 6)) if (not consts or r.random() < 0.5) else '%s %s %d' % (r.choice(consts), r.choice(['+', '*', '/']), r.randint(1, 3))
+                decl.append('integer, parameter :: %s = %s' % (c_, ini))
+                env[c_] = {'cat': 'scalar', 'ty': 'integer', 'assignable': False, 'local': True, 'const': True, 'noassoc': not ini.isdigit()}
+                consts.append(c_)
         # locals (sometimes shadowing an outer name)
         for _ in range(r.randint(1, 3)):
-            shadow = [m for m, v in outer.items() if v['cat'] in ('scalar', 'array') and m != jp]
+            shadow = [m for m, v in outer.items() if v['cat'] in ('scalar', 'array') and m != jp and not v.get('const')]
             v = r.choice(shadow) if (shadow and r.random() < 0.25) else self.fresh('k')
             if v in env and env[v].get('local'): continue
             if r.random() < 0.6:
-                init = ' = %d' % r.randint(1, 5) if r.random() < 0.2 else ''
-                decl.append('integer :: %s%s' % (v, init)); env[v] = {'cat': 'scalar', 'ty': 'integer', 'local': True}
+                init, noassoc = '', False
+                if r.random() < 0.45:
+                    x_ = r.random()
+                    if consts and x_ < 0.7:
+                        c_ = r.choice(consts)
+                        init = ' = ' + r.choice([c_, '%s + 1' % c_, '2 * %s' % c_, '%s - %d' % (c_, r.randint(1, 2))])
+                        noassoc = True
+                    else:
+                        init = ' = %d' % r.randint(1, 5)
+                kd = '(kind=%s)' % jp if (init and jp and (self.leaky or not jp_inside) and r.random() < 0.3) else ''
+                decl.append('integer%s :: %s%s' % (kd, v, init)); env[v] = {'cat': 'scalar', 'ty': 'integer', 'local': True, 'noassoc': noassoc}
             else:
                 dim = r.choice([str(r.randint(3, 5)), n_int] + ([jp] if jp else []))
                 decl.append('real :: %s(%s)' % (v, dim))
@@ -500,10 +533,18 @@ class SrcGen:
         jp = None
         if r.random() < 0.7:
             jp = 'jp'; lines.append('  integer, parameter :: jp = 4'); env[jp] = {'cat': 'scalar', 'ty': 'integer', 'assignable': False}
+        mconsts = []
+        if r.random() < 0.6:
+            c_ = self.fresh('nmax'); lines.append('  integer, parameter :: %s = %d' % (c_, r.randint(4, 12)))
+            env[c_] = {'cat': 'scalar', 'ty': 'integer', 'assignable': False, 'const': True}; mconsts.append(c_)
+            if r.random() < 0.5:
+                c2 = self.fresh('nhalf'); lines.append('  integer, parameter :: %s = %s / 2' % (c2, c_))
+                env[c2] = {'cat': 'scalar', 'ty': 'integer', 'assignable': False, 'const': True, 'noassoc': True}; mconsts.append(c2)
         for _ in range(r.randint(1, 3)):
             v = self.fresh('mv')
             if r.random() < 0.5:
-                lines.append('  integer :: %s' % v); env[v] = {'cat': 'scalar', 'ty': 'integer'}
+                init = ' = %s' % r.choice(mconsts + ['%s + 1' % mconsts[0]]) if (mconsts and r.random() < 0.6) else ''
+                lines.append('  integer :: %s%s' % (v, init)); env[v] = {'cat': 'scalar', 'ty': 'integer', 'noassoc': bool(init)}
             else:
                 dim = jp if (jp and r.random() < 0.4) else str(r.randint(3, 5))
                 kind = '(kind=%s)' % jp if (jp and (self.leaky or not self.module_is_target) and r.random() < 0.3) else ''
@@ -660,12 +701,34 @@ class C17(Property):
                'registered': self.registered(chain, c)}
         if case['kind'] == 'clone-free':
             out['edit_log'] = self.free_edits(case, u, c, lab, types_)
+            out['retype_probe'] = self.retype_probe(u, c, lab, types_)
             return out
         medits, log = self.model_edits(case, u, c, lab, types_)
         out['medits'], out['edit_log'] = medits, log
         out['orig_final'] = S.export(S.Tree(u), lab, types_)
         out['clone_final'] = S.export(S.Tree(c), lab, types_)
+        out['retype_probe'] = self.retype_probe(u, c, lab, types_)      # last: it modifies both copies
         return out
+
+    def retype_probe(self, u, c, lab, types_):
+        """re-type, in one copy, the names that symbols INSIDE the table entries of the other copy use (kind / initial / shape /
+        length ...) and read all types through the other copy: nothing may change there"""
+        S = sg()
+        bad = []
+        for x, other, wx in ((u, c, 'original'), (c, u, 'clone')):
+            g_other = S.export(S.Tree(other), lab, types_)
+            names = sorted({t[2] for xo in flat(g_other) for t in xo['ttypes']})[:4]
+            tx = S.Tree(x)
+            for nm in names:
+                for sc in tx.objs:
+                    if nm in sc.symbol_attrs and not isinstance(getattr(sc.symbol_attrs[nm], 'dtype', None), S.ProcedureType):
+                        before_t = inner_types(S.export(S.Tree(other), lab, types_))
+                        sc.symbol_attrs[nm] = S.SymbolAttributes(S.BasicType.LOGICAL, vtag=99)
+                        after_t = inner_types(S.export(S.Tree(other), lab, types_))
+                        if after_t != before_t:
+                            bad.append('re-typing %s in the %s changed the type read by a symbol of the other copy' % (nm, wx))
+                        break
+        return bad
 
     @staticmethod
     def same_code(f0, fc, ckw, name):
@@ -729,7 +792,8 @@ class C17(Property):
                 before_f = other.to_fortran()
             except Exception:      # an earlier edit of that copy (e.g. a deleted table entry) made it unprintable
                 before_f = None
-            before_g = strip_types(S.export(S.Tree(other), lab, types_))
+            before_full = S.export(S.Tree(other), lab, types_)
+            before_g, before_t = strip_types(before_full), inner_types(before_full)
             tx = S.Tree(x)
             for o in tx.objs: lab.ref(o)          # scope objects created by earlier edits get (foreign) labels
             sc = tx.objs[s1 % len(tx.objs)]
@@ -813,12 +877,17 @@ class C17(Property):
                         for r_ in recs_[1:]: shadow |= set(dict.keys(tx.objs[r_['idx']].symbol_attrs))
                         args_ = {str(a.name).lower() for a in pu.arguments}
                         vm = pu.variable_map
+                        gx = S.export(tx, lab, types_)
+                        # a renaming also rewrites the initialisers / shapes of OTHER entries that use the name and leaves a stale entry
+                        # whose embedded symbols are no longer re-attachable: only names free of both are renamed in the modelled stream
+                        in_types = {t_[0] for x_ in flat(gx) for e_ in x_['tab'] for t_ in e_[3]}
+                        with_syms = {e_[0] for x_ in flat(gx) if x_['id'] == lab.ref(pu) for e_ in x_['tab'] if e_[3]}
                         keys = sorted(k for k, v in dict.items(pu.symbol_attrs) if '%' not in k and k not in shadow and k not in args_
+                                      and k not in in_types and k not in with_syms
                                       and isinstance(vm.get(k), S.sym.Scalar) and not isinstance(getattr(v, 'dtype', None), (S.ProcedureType, S.DerivedType)))
                         if keys:
                             k_ = keys[s2 % len(keys)]
                             new_name = '%s_rn%d' % (k_, vt)
-                            gx = S.export(tx, lab, types_)
                             ent_ = [t_ for x_ in flat(gx) if x_['id'] == lab.ref(pu) for t_ in x_['tab'] if t_[0] == k_][0]
                             vmap = {w: w.clone(name=new_name) for w in FindVariables(unique=False).visit((pu.spec, pu.body)) if str(w.name).lower() == k_}
                             pu.spec = SubstituteExpressions(vmap).visit(pu.spec)
@@ -853,7 +922,9 @@ class C17(Property):
                     entry['other_fgen_same'] = other.to_fortran() == before_f
                 except Exception as ex:
                     entry['other_fgen_same'] = 'raised ' + type(ex).__name__
-            entry['other_graph_same'] = strip_types(S.export(S.Tree(other), lab, types_)) == before_g
+            after_full = S.export(S.Tree(other), lab, types_)
+            entry['other_graph_same'] = strip_types(after_full) == before_g
+            entry['other_types_same'] = inner_types(after_full) == before_t
             log.append(entry)
         return medits, log
 
@@ -869,7 +940,8 @@ class C17(Property):
                 before_f = other.to_fortran()
             except Exception:
                 before_f = None
-            before_g = strip_types(S.export(S.Tree(other), lab, types_))
+            before_full = S.export(S.Tree(other), lab, types_)
+            before_g, before_t = strip_types(before_full), inner_types(before_full)
             tx = S.Tree(x)
             for o in tx.objs: lab.ref(o)
             subs = [o for o in tx.objs if isinstance(o, S.Subroutine)]
@@ -921,7 +993,9 @@ class C17(Property):
                 entry['other_fgen_same'] = (other.to_fortran() == before_f) if before_f is not None else True
             except Exception as ex:
                 entry['other_fgen_same'] = 'raised ' + type(ex).__name__
-            entry['other_graph_same'] = strip_types(S.export(S.Tree(other), lab, types_)) == before_g
+            after_full = S.export(S.Tree(other), lab, types_)
+            entry['other_graph_same'] = strip_types(after_full) == before_g
+            entry['other_types_same'] = inner_types(after_full) == before_t
             log.append(entry)
         return log
 
@@ -1010,6 +1084,10 @@ class C17(Property):
                 return 'edit %s on one copy changed the code of the other copy (%s)' % (entry['edit'], entry['other_fgen_same'])
             if 'other_graph_same' in entry and not entry['other_graph_same']:
                 return 'edit %s on one copy changed the scope graph of the other copy' % (entry['edit'],)
+            if case['kind'] != 'clone-leaky' and entry.get('other_types_same') is False:
+                return 'edit %s on one copy changed a type read by a symbol (IR or inside a table entry) of the other copy' % (entry['edit'],)
+        if case['kind'] != 'clone-leaky' and out.get('retype_probe'):
+            return out['retype_probe'][0]
         return None
 
     def nontrivial_key(self, case, out):
